@@ -309,7 +309,7 @@ func (p *printer) redir(r *ast.Redir) {
 
 func (p *printer) subshell(x *ast.Subshell) {
 	p.w.WriteByte('(')
-	if len(x.List) > 1 || x.Lparen.Line() != x.Rparen.Line() {
+	if !p.oneLine(x) {
 		p.compoundList(x.List)
 		p.newline()
 		p.indent()
@@ -341,7 +341,7 @@ func (p *printer) leadingSubshell(c ast.Command) bool {
 
 func (p *printer) group(x *ast.Group) {
 	p.w.WriteByte('{')
-	if len(x.List) > 1 || x.Lbrace.Line() != x.Rbrace.Line() {
+	if !p.oneLine(x) {
 		p.compoundList(x.List)
 		p.newline()
 		p.indent()
@@ -367,7 +367,7 @@ func (p *printer) forClause(x *ast.ForClause) {
 			p.word(w)
 		}
 	}
-	if x.For.Line() != x.Done.Line() {
+	if !p.oneLine(x) {
 		if p.cfg.Do&Newline == 0 {
 			if !x.In.IsZero() {
 				p.w.WriteString("; do")
@@ -398,7 +398,7 @@ func (p *printer) caseClause(x *ast.CaseClause) {
 	p.w.WriteString("case ")
 	p.word(x.Word)
 	p.w.WriteString(" in")
-	if x.Case.Line() != x.Esac.Line() {
+	if !p.oneLine(x) {
 		if p.cfg.Case {
 			p.lv++
 		}
@@ -453,7 +453,7 @@ func (p *printer) patterns(c *ast.CaseItem) {
 }
 
 func (p *printer) ifClause(x *ast.IfClause) {
-	list := x.If.Line() == x.Fi.Line()
+	list := p.oneLine(x)
 	ifPart := func(word string, cond, cmds []ast.Command) {
 		p.w.WriteString(word)
 		sep := "_"
@@ -526,11 +526,11 @@ func (p *printer) ifClause(x *ast.IfClause) {
 }
 
 func (p *printer) whileClause(x *ast.WhileClause) {
-	p.loop(x.While.Line() == x.Done.Line(), "while", x.Cond, x.List)
+	p.loop(p.oneLine(x), "while", x.Cond, x.List)
 }
 
 func (p *printer) untilClause(x *ast.UntilClause) {
-	p.loop(x.Until.Line() == x.Done.Line(), "until", x.Cond, x.List)
+	p.loop(p.oneLine(x), "until", x.Cond, x.List)
 }
 
 func (p *printer) loop(list bool, word string, cond, cmds []ast.Command) {
@@ -576,6 +576,128 @@ func (p *printer) loop(list bool, word string, cond, cmds []ast.Command) {
 		p.space()
 	}
 	p.w.WriteString("done")
+}
+
+// oneLine reports whether the compound command x is printed on one line.
+// The positions alone cannot tell: all the tokens of an alias value have
+// the same one.
+func (p *printer) oneLine(x ast.CmdExpr) bool {
+	switch x := x.(type) {
+	case *ast.Subshell:
+		return len(x.List) == 1 && x.Lparen.Line() == x.Rparen.Line() && p.flat(x.List[0])
+	case *ast.Group:
+		return len(x.List) == 1 && x.Lbrace.Line() == x.Rbrace.Line() && p.flat(x.List[0])
+	case *ast.ForClause:
+		return x.For.Line() == x.Done.Line() && p.inline(x.List)
+	case *ast.CaseClause:
+		if x.Case.Line() != x.Esac.Line() {
+			return false
+		}
+		for _, c := range x.Items {
+			if len(c.List) > 1 || len(c.List) == 1 && !p.flat(c.List[0]) {
+				return false
+			}
+		}
+	case *ast.IfClause:
+		if x.If.Line() != x.Fi.Line() || !p.inline(x.Cond, x.List) {
+			return false
+		}
+		for _, e := range x.Else {
+			switch e := e.(type) {
+			case *ast.ElifClause:
+				if !p.inline(e.Cond, e.List) {
+					return false
+				}
+			case *ast.ElseClause:
+				if !p.inline(e.List) {
+					return false
+				}
+			}
+		}
+	case *ast.WhileClause:
+		return x.While.Line() == x.Done.Line() && p.inline(x.Cond, x.List)
+	case *ast.UntilClause:
+		return x.Until.Line() == x.Done.Line() && p.inline(x.Cond, x.List)
+	case *ast.FuncDef:
+		return p.flat(x.Body)
+	}
+	return true
+}
+
+// flat reports whether the command c is printed on one line.
+func (p *printer) flat(c ast.Command) bool {
+	switch c := c.(type) {
+	case ast.List:
+		for _, ao := range c {
+			if !p.flat(ao) {
+				return false
+			}
+		}
+	case *ast.AndOrList:
+		if !p.flat(c.Pipeline) {
+			return false
+		}
+		for _, ao := range c.List {
+			if !p.flat(ao.Pipeline) {
+				return false
+			}
+		}
+	case *ast.Pipeline:
+		if !p.flat(c.Cmd) {
+			return false
+		}
+		for _, pp := range c.List {
+			if !p.flat(pp.Cmd) {
+				return false
+			}
+		}
+	case *ast.Cmd:
+		return p.oneLine(c.Expr)
+	}
+	return true
+}
+
+// inline reports whether each of the lists can be printed on the line of
+// its reserved words: it consists of one command which is printed on one
+// line, and either carries its separator or ends with a compound command.
+func (p *printer) inline(lists ...[]ast.Command) bool {
+	for _, cmds := range lists {
+		if len(cmds) != 1 || !p.flat(cmds[0]) || p.sepOf(cmds[0]) == "" && !p.compound(cmds[0]) {
+			return false
+		}
+	}
+	return true
+}
+
+// compound reports whether c ends with a compound command, after which a
+// reserved word is recognized.
+func (p *printer) compound(c ast.Command) bool {
+	switch c := c.(type) {
+	case ast.List:
+		return len(c) != 0 && p.compound(c[len(c)-1])
+	case *ast.AndOrList:
+		if n := len(c.List); n != 0 {
+			return p.compound(c.List[n-1].Pipeline)
+		}
+		return p.compound(c.Pipeline)
+	case *ast.Pipeline:
+		if n := len(c.List); n != 0 {
+			return p.compound(c.List[n-1].Cmd)
+		}
+		return p.compound(c.Cmd)
+	case *ast.Cmd:
+		if len(c.Redirs) != 0 {
+			return false
+		}
+		switch x := c.Expr.(type) {
+		case nil, *ast.SimpleCmd:
+			return false
+		case *ast.FuncDef:
+			return p.compound(x.Body)
+		}
+		return true
+	}
+	return false
 }
 
 func (p *printer) sepOf(c ast.Command) string {
@@ -688,7 +810,7 @@ func (p *printer) cmdSubst(w *ast.CmdSubst) {
 	} else {
 		p.w.WriteByte('`')
 	}
-	if len(w.List) > 1 || w.Left.Line() != w.Right.Line() {
+	if len(w.List) > 1 || w.Left.Line() != w.Right.Line() || !p.flat(w.List[0]) {
 		base := p.base
 		p.base = len(p.stack)
 		p.compoundList(w.List)
